@@ -268,8 +268,36 @@ func addConst(t *Term, k int64) *Term {
 }
 
 // wf: well-formedness of a value of Go type t (references point below the allocation counter).
+// A value computed from entry-state symbols only (parameters, the initial heap) existed when the function was entered, so
+// what it refers to lies below the entry allocation counter; anything else is bounded by the current counter.
 func (x *Exec) wf(st *State, v *Term, t types.Type) *Term {
+	if x.vc != nil && x.vc.allocBase != nil && entryOnly(v) {
+		return x.wfAt(x.vc.allocBase, v, t, 0)
+	}
 	return x.wfAt(st.alloc, v, t, 0)
+}
+
+func entryOnly(t *Term) bool {
+	ok := true
+	n := 0
+	t.walk(func(s *Term) {
+		n++
+		if !ok || n > 400 {
+			ok = ok && n <= 400
+			return
+		}
+		switch s.Kind {
+		case kVar:
+			if !(strings.HasPrefix(s.Op, "p_") || strings.HasSuffix(s.Op, "_0")) {
+				ok = false
+			}
+		case kApp:
+			if s.Op == "store" || strings.HasPrefix(s.Op, "zerorow_") {
+				ok = false
+			}
+		}
+	})
+	return ok
 }
 
 func (x *Exec) wfAt(alloc *Term, v *Term, t types.Type, depth int) *Term {
